@@ -21,6 +21,10 @@ VariantMax(enc, v, n, kind) ==
     [] f = "big5" -> (IF kind = "utf16" THEN L + 1 ELSE IF kind = "utf8" THEN 2 * L + 2 ELSE 3 * L + 3)
     [] f = "euckr" -> (IF kind = "utf16" THEN L ELSE IF kind = "utf8" THEN L + ((L + 1) \div 2) + 2 ELSE 3 * L)
     [] f = "sjis" -> (IF kind = "utf16" THEN L ELSE 3 * L)
+    [] f = "eucjp" ->
+         \* plus_one_if_lead: +1 for any pending state
+         (LET E == n + (IF v.st.a # 0 THEN 1 ELSE 0)
+          IN  IF kind = "utf16" THEN E ELSE IF kind = "utf8" THEN E + ((E + 1) \div 2) + 2 ELSE 3 * E)
     [] f = "repl" -> (IF kind = "utf16" THEN 1 ELSE 3)
     [] f = "gb" ->
          \* extra_from_state = pending count + (pending_ascii ? 1 : 0)
